@@ -362,14 +362,14 @@ func (s *Store[K, V]) policyNewEntry(hash uint64, shard *Shard[K, V], cost int64
 	}
 }
 
-func (s *Store[K, V]) policyUpdateEntry(entry *Entry[K, V], hash uint64, cost, old int64, reschedule bool) {
+func (s *Store[K, V]) policyUpdateEntry(entry *Entry[K, V], hash uint64, cost, old int64, reschedule bool, fromNVM bool) {
 	// create/update events order might change due to race,
 	// send cost change in event and apply them to entry policy weight
 	// so different order still works.
 	costChange := cost - old
 	s.writeChan <- WriteBufItem[K, V]{
 		entry: entry, code: UPDATE, costChange: costChange, rechedule: reschedule,
-		hash: hash,
+		hash: hash, nvmDirty: !fromNVM,
 	}
 }
 
@@ -453,7 +453,7 @@ func (s *Store[K, V]) toPolicy(result setShardResult[K, V], shard *Shard[K, V], 
 		return
 	}
 	if result.exists {
-		s.policyUpdateEntry(result.entry, hash, cost, result.oldCost, result.reschedule)
+		s.policyUpdateEntry(result.entry, hash, cost, result.oldCost, result.reschedule, nvmClean)
 	} else {
 		s.policyNewEntry(hash, shard, cost, result.entry, nvmClean)
 	}
@@ -688,6 +688,13 @@ func (s *Store[K, V]) sinkWrite(item WriteBufItem[K, V]) {
 			if hh != item.hash {
 				return
 			}
+		}
+
+		// entry value is overwritten and the copy in secondary cache is stale,
+		// clear the flag so entry will be written to secondary cache again on eviction.
+		// The flag is protected by policy mutex so can't be updated in Set directly.
+		if item.nvmDirty {
+			entry.flag.SetFromNVM(false)
 		}
 
 		// update entry policy weight
